@@ -119,62 +119,61 @@ def lock_before_far(ctx, fn, name):
 
 @rule('C10', 'R3', 'every end of a round locks the state before FlushAndRestart leaves the loop head (Replay, Iterate)')
 def c10_r3(ctx):
+    """Must-pass-through on the exploded graph of one activation of the loop head's `next` (private helpers inlined, so the rule does
+    not depend on how `next` is split into helpers): no return whose value may be FlushAndRestart is reachable from the entry without
+    executing IterationStateHandler::lock. Return values are variant sets computed by the abstract interpreter (payload of
+    Option::unwrap, `?`, matches! and match arms are followed); an untracked value counts as "may be FlushAndRestart"."""
+    from ..opsum import OpInterp, se_summaries
+    from ..absint import Bound
     facts = ctx.facts
-    # Replay::input_next: FlushAndRestart arm ; Replay::next: replayed FlushAndRestart
-    rin = facts.method(REPLAY, 'input_next')
-    locks = lock_before_far(ctx, rin, 'Replay::input_next')
-    ok = False
-    for bi, t in locks:
-        dnf = q.cond_of_block(facts, rin, bi)
-        if q.cond_has(dnf, lambda a: a[0] == 'is' and a[2] == 'FlushAndRestart'):
-            ok = True
-    # the FlushAndRestart arm that returns must be dominated by a lock
-    for rb, s in q.aggregates(rin, SE, 'FlushAndRestart'):
-        if not any(rin.dominates(lb, rb) or lb == rb for lb, _ in locks):
-            dn = q.cond_of_block(facts, rin, rb)
-            # pushing the marker into `content` is also an aggregate; only the returned one matters: it is
-            # in the FlushAndRestart arm as well, so require a lock in that arm
-            if not ok:
-                ctx.viol('%s|far-without-lock' % rin.path, s['at'],
-                         'Replay::input_next forwards the first FlushAndRestart without locking the loop state: blocks of the body could '
-                         'start the next round against the previous state', None)
-    if not ok:
-        ctx.viol('%s|no-lock-on-far' % rin.path, rin.at, 'Replay::input_next does not lock the state on the FlushAndRestart arm', None)
-    rn = facts.method(REPLAY, 'next', trait=OP)
-    locks = lock_before_far(ctx, rn, 'Replay::next')
-    ok = False
-    for bi, t in locks:
-        dnf = q.cond_of_block(facts, rn, bi)
-        if q.cond_has(dnf, lambda a: (a[0] == 'is' and a[2] == 'FlushAndRestart')):
-            ok = True
-    if not ok:
-        ctx.viol('%s|replayed-far-without-lock' % rn.path, rn.at,
-                 'Replay::next replays a recorded FlushAndRestart without locking the loop state first', None)
-    for mname in ('next_input', 'next_stored'):
-        m = facts.method(ITERATE, mname)
-        locks = lock_before_far(ctx, m, 'Iterate::' + mname)
-        ok = False
-        for bi, t in locks:
-            dnf = q.cond_of_block(facts, m, bi)
-            if q.cond_has(dnf, lambda a: (a[0] == 'is' and a[2] == 'FlushAndRestart')):
-                ok = True
-        if not ok:
-            ctx.viol('%s|far-without-lock' % m.path, m.at,
-                     'Iterate::%s hands out a FlushAndRestart without locking the loop state first' % mname, None)
-    # both loop heads pass the feedback through wait_sync_state before the next round
     for adt in (REPLAY, ITERATE):
+        name = adt.split('::')[-1]
         nx = facts.method(adt, 'next', trait=OP)
+        locks = {bi: t for bi, t in nx.calls() if (t['callee'].get('path') or '') == HANDLER + '::<State>::lock'}
+        it = OpInterp(facts, nx, se_summaries(facts), protocol=False)
+        try:
+            g = it.explore(0, {})
+        except Bound as e:
+            raise Inconclusive(str(e))
+        free = g.reachable([g.root], avoid=lambda n: g.block(n) in locks)
+        rets = g.return_nodes()
+        far_locked = far_free = other = 0
+        bad = None
+        for n in rets:
+            rv = g.ret_value(n)
+            may_far = not (rv and rv[0] == 'v') or 'FlushAndRestart' in rv[1]
+            if not may_far:
+                other += 1
+            elif n in free:
+                far_free += 1
+                bad = bad or n
+            else:
+                far_locked += 1
+        ctx.inst('%s::next|lock before FlushAndRestart' % name,
+                 {'function': nx.path, 'helpers inlined': [x.rsplit('::', 1)[1] for x in getattr(nx, 'inlined_from', [])],
+                  'lock sites': [t['at'] for t in locks.values()], 'return states': len(rets),
+                  'FlushAndRestart returns behind a lock': far_locked, 'without': far_free, 'other returns': other})
+        if not locks or far_locked == 0:
+            raise AnchorMissing('%s::next: no FlushAndRestart return behind IterationStateHandler::lock found' % name)
+        if bad is not None:
+            p_ = g.path_to(bad, [g.root])
+            ctx.viol('%s|far-without-lock' % nx.path, nx.at,
+                     '%s::next can hand a FlushAndRestart downstream without locking the loop state first: blocks of the body could start '
+                     'the next round against the previous state' % name, {'path': g.describe_path(p_) if p_ else None})
+        # both loop heads pass the leader's feedback through wait_sync_state before the next round
         ws = q.calls(nx, HANDLER + '::<State>::wait_sync_state')
-        wu = [(bi, t) for bi, t in nx.calls() if (t['callee'].get('path') or '').endswith('::wait_update')]
-        ctx.inst(adt.split('::')[-1] + '::next|sync', {'wait_update': [t['at'] for _, t in wu], 'wait_sync_state': [t['at'] for _, t in ws]})
-        if not ws or not wu or not nx.dominates(wu[0][0], ws[0][0]):
-            ctx.viol('%s|no-sync' % nx.path, nx.at, '%s::next does not run wait_update -> wait_sync_state at the end of a round' % adt.split('::')[-1], None)
+        rc = [(bi, t) for bi, t in nx.calls() if (t['callee'].get('path') or '').endswith('NetworkReceiver::<In>::recv')
+              or (t['callee'].get('path') or '').endswith('::select') or (t['callee'].get('path') or '').endswith('::wait_update')]
+        ctx.inst('%s::next|sync' % name, {'state received at': [t['at'] for _, t in rc][:4], 'wait_sync_state': [t['at'] for _, t in ws]})
+        if not ws:
+            ctx.viol('%s|no-sync' % nx.path, nx.at, '%s::next does not pass the new state through wait_sync_state at the end of a round' % name, None)
 
 
 @rule('C10', 'R5', 'leader accounting: one delta per IterationEnd replica per round, feedback to every loop head, stop iff !condition || index >= max')
 def c10_r5(ctx):
     facts = ctx.facts
-    pu = facts.method(LEADER, 'process_updates')
+    # evaluated on IterationLeader::next with its private helpers (process_updates, final_result) inlined
+    pu = facts.method(LEADER, 'next', trait=OP)
     sym = q.sym(facts, pu)
     decs = []
     for bi, blk in enumerate(pu.blocks):
@@ -206,12 +205,14 @@ def c10_r5(ctx):
     if not okt:
         ctx.viol('%s|terminate' % pu.path, pu.at, 'the leader does not stop when its delta stream terminates', None)
     # final_result: continue <=> condition && index < max
-    fr = facts.method(LEADER, 'final_result')
-    fsym = q.sym(facts, fr)
+    fr = pu
+    fsym = sym
     # the `None` result (= continue) must be guarded by loop_condition() == true AND index < max
-    nones = [(bi, st) for bi, st in q.aggregates(fr, 'std::option::Option', 'None') if st['lhs'] == [0]]
+    # `None` built as the Option<State> result of the round (not the `None` of process_updates, an Option<StreamElement>)
+    nones = [(bi, st) for bi, st in q.aggregates(fr, 'std::option::Option', 'None')
+             if is_local(st['lhs']) and fr.locals[st['lhs'][0]]['ty'].startswith('std::option::Option<State')]
     if not nones:
-        raise AnchorMissing('final_result has no `None` (continue) result')
+        raise AnchorMissing('IterationLeader::next has no `None` (continue) result of type Option<State>')
     for bi, st in nones:
         dnf = q.cond_of_block(facts, fr, bi)
         ctx.inst('final_result|continue', {'at': st['at'], 'conditions': show_dnf(dnf)})
@@ -235,20 +236,26 @@ def c10_r5(ctx):
     if not sends or not any(bi in nx.reachable_from(s) for bi, _ in sends for s in nx.succ(bi)):
         ctx.viol('%s|feedback-not-broadcast' % nx.path, nx.at, 'the leader does not send the new state to every feedback sender (loop over feedback_senders)', None)
     else:
-        dnf = q.cond_of_block(facts, nx, sends[0][0])
-        extra = [a for c in dnf for a in c if a[0] in ('bool', 'cmp') and 'flush_and_restart' not in str(a[1])]
-        if extra:
-            ctx.viol('%s|conditional-feedback' % nx.path, sends[0][1]['at'], 'the state feedback is sent only under %s' % show_dnf([frozenset(extra)]), None)
+        # must-pass-through: the send loop post-dominates the point where the round is counted (iteration_index += 1)
+        incs = [bi for bi, blk in enumerate(nx.blocks) if not blk['cleanup'] for s_ in blk['s'] if s_['k'] == 'assign' and s_['rv']['r'] == 'bin'
+                and s_['rv']['op'] in ('AddWithOverflow', 'Add') and 'iteration_index' in render(strip(q.sym(facts, nx).rvalue(s_['rv'])))]
+        heads = [bi for bi, t in nx.calls() if (t['callee'].get('path') or '') == 'std::iter::Iterator::next'
+                 and sends[0][0] in nx.reachable_from(bi) and bi in nx.reachable_from(sends[0][0])]
+        okpd = bool(incs) and bool(heads) and any(nx.post_dominates(h, incs[0]) for h in heads)
+        ctx.inst('IterationLeader::next|feedback on every round', {'round counted at block': incs[:1], 'send loop head': heads[:1], 'post-dominates': okpd})
+        if not okpd:
+            ctx.viol('%s|conditional-feedback' % nx.path, sends[0][1]['at'],
+                     'a round can be closed (iteration_index incremented) on a path that does not run the loop sending the state feedback to '
+                     'the loop heads: they would wait forever or reuse the previous state', None)
     # the round counter is re-armed on every path that finishes the loop (condition false OR bound reached):
     # nested loops re-run the same leader for every outer round
     nsym = q.sym(facts, nx)
     finish = [(bi, s) for bi, s in q.aggregates(nx, SE, 'Item') if s['lhs'] == [0]]
     zero_next = [bi for bi, si, f, s in q.self_writes(nx, 'iteration_index') if render(strip(nsym.rvalue(s['rv']))) == '0_usize']
-    zero_fr = [bi for bi, si, f, s in q.self_writes(fr, 'iteration_index') if render(strip(fsym.rvalue(s['rv']))) == '0_usize']
+    zero_fr = []
     some_fr = [bi for bi, blk in enumerate(fr.blocks) if not blk['cleanup'] for s in blk['s']
                if s['k'] == 'assign' and s['lhs'] == [0] and not (s['rv']['r'] == 'agg' and s['rv'].get('v') == 'None')]
-    ok_reset = any(nx.dominates(z, fb) for z in zero_next for fb, _ in finish) or \
-        (bool(some_fr) and any(all(fr.dominates(z, sb) for sb in some_fr) for z in zero_fr))
+    ok_reset = bool(finish) and all(any(nx.dominates(z, fb) for z in zero_next) for fb, _ in finish)
     ctx.inst('IterationLeader|counter re-armed', {'resets in next': len(zero_next), 'resets in final_result': len(zero_fr), 'finish returns': [s['at'] for _, s in finish]})
     if not finish:
         raise AnchorMissing('IterationLeader::next has no `return Item(state)`')
